@@ -321,7 +321,7 @@ pub fn make_config(
                 std::panic::panic_any(Capped);
             }
             if rec.borrow().is_empty() {
-                FIRST_NET.with(|n| *n.borrow_mut() = Some(show_net(&format!("{:?}", s.network))));
+                FIRST_NET.with(|n| *n.borrow_mut() = show_net(&format!("{:?}", s.network)));
             }
             if PREDS.with(|p| *p.borrow()) {
                 rec.borrow_mut().push(format!("{} {}", show_state(s), crate::preds::battery(s)));
@@ -375,39 +375,40 @@ pub fn summarize(res: McResult, rec: &Rc<RefCell<Vec<String>>>) -> RunOut {
 
 /// canonical text of the checker's network settings, from the `Debug` rendering of the public `McState::network` field
 /// (`McNetwork` has no getters): the three rates as the flags the checker's semantics depends on, the node and link sets sorted
-pub fn show_net(dbg: &str) -> String {
-    fn field<'a>(dbg: &'a str, name: &str) -> &'a str {
+pub fn show_net(dbg: &str) -> Option<String> {
+    // `None` when the rendering does not have the expected fields (a harmless rename of a private field must not look like a
+    // behavioural difference: the line is then omitted and the comparison of network settings is skipped)
+    fn field<'a>(dbg: &'a str, name: &str) -> Option<&'a str> {
         let key = format!("{}: ", name);
-        let i = dbg.find(&key).map(|i| i + key.len()).unwrap_or(dbg.len());
-        &dbg[i..]
+        dbg.find(&key).map(|i| &dbg[i + key.len()..])
     }
-    fn num(dbg: &str, name: &str) -> f64 {
-        let rest = field(dbg, name);
+    fn num(dbg: &str, name: &str) -> Option<f64> {
+        let rest = field(dbg, name)?;
         let end = rest.find(|c: char| c == ',' || c == ' ' || c == '}').unwrap_or(rest.len());
-        rest[..end].parse().unwrap_or(f64::NAN)
+        rest[..end].parse().ok()
     }
-    fn set(dbg: &str, name: &str) -> Vec<String> {
-        let rest = field(dbg, name);
-        let end = rest.find('}').unwrap_or(rest.len());
+    fn set(dbg: &str, name: &str) -> Option<Vec<String>> {
+        let rest = field(dbg, name)?;
+        let end = rest.find('}')?;
         let inner = rest[..end].trim_start_matches('{');
         let mut names: Vec<String> = inner.split('"').skip(1).step_by(2).map(|x| x.to_string()).collect();
         if name == "disabled_links" {
             names = names.chunks(2).map(|c| format!("{}>{}", c[0], c.get(1).cloned().unwrap_or_default())).collect();
         }
         names.sort();
-        names
+        Some(names)
     }
-    let (dr, du, co) = (num(dbg, "drop_rate"), num(dbg, "dupl_rate"), num(dbg, "corrupt_rate"));
-    format!(
+    let (dr, du, co) = (num(dbg, "drop_rate")?, num(dbg, "dupl_rate")?, num(dbg, "corrupt_rate")?);
+    Some(format!(
         "drop={} dupl={} corrupt={} din={} dout={} links={} maxd={}",
         (dr > 0.0) as u8,
         (du != 0.0) as u8,
         (co > 0.0) as u8,
-        show_list(&set(dbg, "drop_incoming")),
-        show_list(&set(dbg, "drop_outgoing")),
-        show_list(&set(dbg, "disabled_links")),
-        units_of(num(dbg, "max_delay"))
-    )
+        show_list(&set(dbg, "drop_incoming")?),
+        show_list(&set(dbg, "drop_outgoing")?),
+        show_list(&set(dbg, "disabled_links")?),
+        units_of(num(dbg, "max_delay")?)
+    ))
 }
 
 pub fn run_lines(k: usize, out: &RunOut) -> Vec<String> {
